@@ -1655,8 +1655,10 @@ def poison_allocator():
 def call_once(routine, args, kwargs, pre=None, threads=None, alloc=None):
     """decode fresh arguments, snapshot, perturb, call, snapshot.  Returns (outcome, before, after)."""
     fn = resolve(routine)
-    a = decode(args)
-    kw = decode(kwargs)
+    with warnings.catch_warnings(), np.errstate(all='ignore'):
+        warnings.simplefilter('ignore')          # e.g. a float32 presentation of 1e300
+        a = decode(args)
+        kw = decode(kwargs)
     before = {'args': [snap(x) for x in a], 'kwargs': {k: snap(v) for k, v in kw.items()}}
     with warnings.catch_warnings(), np.errstate(all='ignore'):
         warnings.simplefilter('ignore')
@@ -1916,6 +1918,115 @@ def check_threads(ctx, routine, label, args, kwargs, repeats=3):
 
 
 
+
+# --------------------------------------------------------------------------------------
+# probabilities / weights / counts at extreme scales (products underflow to 0 or overflow to inf)
+# --------------------------------------------------------------------------------------
+
+def extreme_scale_sets(rng, thorough):
+    """(routine, label, args, kwargs): valid inputs in which some state / row / cell carries a weight so small
+    that its square or a product of two marginals is exactly 0.0 although the weight itself is not
+    (Boltzmann weights with E/kT > ~373), or so large that it overflows."""
+    out = []
+    tinies = TINY if thorough else [TINY[int(i)] for i in rng.permutation(len(TINY))[:3]] + [5e-324]
+    for k, t in enumerate(dict.fromkeys(tinies)):
+        # weighted_mi: state `n` has a lone member (frame 0) whose weight is t, in every feature / in one feature
+        T, F, n = int(rng.integers(3, 20)), int(rng.integers(1, 4)), int(rng.integers(2, 4))
+        feats = rng.integers(0, n, size=(T, F))
+        feats[1, :] = n - 1
+        feats[0, :] = n
+        w = rng.random(T) + 0.1
+        w[0] = 0.0
+        w = w / w.sum()
+        w[0] = t
+        out.append(('mutual_info.weighted_mi', 'lone-member-weight-%g' % t, [N(feats), N(w)], {'normalize': bool(k % 2)}))
+        f2 = feats.copy()
+        f2[0, 1:] = 0
+        out.append(('mutual_info.weighted_mi', 'lone-member-one-feature-%g' % t, [N(f2), N(w)],
+                    {'n_feature_states': N(np.full(F, n + 1))}))
+        # two tiny frames sharing a state: marginal 2t, joint t
+        w2 = w.copy()
+        w2[1] = t
+        out.append(('mutual_info.weighted_mi', 'two-tiny-members-%g' % t, [N(feats), N(w2 / 1.0)], {}))
+        # entropies / divergences: a tiny probability next to ordinary ones
+        p = _prob_vec(rng, int(rng.integers(3, 12)), 0.2)
+        p[int(np.flatnonzero(p)[0])] = t
+        q = _prob_vec(rng, len(p), 0.0)
+        out.append(('entropy.shannon_entropy', 'tiny-probability-%g' % t, [N(p)], {'normalize': False}))
+        out.append(('entropy.shannon_entropy', 'tiny-probability-normalize-%g' % t, [N(p)], {}))
+        out.append(('entropy.kl_divergence', 'tiny-in-P-%g' % t, [N(p), N(q)], {}))
+        out.append(('entropy.kl_divergence', 'tiny-in-Q-%g' % t, [N(q), N(p)], {}))
+        out.append(('entropy.js_divergence', 'tiny-%g' % t, [N(p), N(q)], {}))
+        # joint counts given as floats: a feature pair observed with total weight t
+        jc = rng.integers(0, 5, size=(2, 2, 2, 2)).astype(float)
+        jc[0, 1] = 0
+        jc[0, 1, 0, 1] = t
+        jc[1, 0] = [[t, t], [0, t]]
+        out.append(('mutual_info.mutual_information', 'tiny-block-%g' % t, [N(jc)], {}))
+        # count matrices / transition matrices with a tiny row, populations with a tiny state
+        n = int(rng.integers(3, 6))
+        C = _counts(rng, n).astype(float)
+        C[0, :] = 0
+        C[0, 1] = t
+        for b in ('normalize', 'transpose'):
+            out.append(('builders.' + b, 'tiny-row-%g' % t, [N(C)], {}))
+        out.append(('msm.trim_disconnected', 'tiny-counts-%g' % t, [N(C)], {'threshold': t}))
+        Tm = _stoch(rng, n)
+        Tm[0, :] = 0
+        Tm[0, 0], Tm[0, 1] = 1.0 - 0.0, t
+        pops = _prob_vec(rng, n, 0)
+        pops[0] = t
+        so, si = [0], [n - 1]
+        out.append(('tpt.committors', 'tiny-exit-%g' % t, [N(Tm), so, si], {}))
+        out.append(('tpt.mfpts', 'tiny-exit-%g' % t, [N(Tm)], {'sinks': si}))
+        out.append(('tpt.mfpts', 'tiny-population-%g' % t, [N(_stoch(rng, n))], {'populations': N(pops)}))
+        out.append(('tpt.reactive_fluxes', 'tiny-population-%g' % t, [N(_stoch(rng, n)), so, si], {'populations': N(pops)}))
+        out.append(('tpt.net_fluxes', 'tiny-population-%g' % t, [N(_stoch(rng, n)), so, si], {'populations': N(pops)}))
+        out.append(('tpt.reactive_populations', 'tiny-population-%g' % t, [N(_stoch(rng, n)), so, si],
+                    {'populations': N(pops)}))
+        out.append(('entropy.relative_entropy_msm', 'tiny-population-%g' % t, [N(_stoch(rng, n))],
+                    {'Q': N(_stoch(rng, n, 0.0)), 'populations': N(pops)}))
+        Fm, s_, t_ = _netflux(rng, n + 1)
+        Fm[Fm > 0] *= t
+        out.append(('tpt.paths', 'tiny-fluxes-%g' % t, [[s_], [t_], N(Fm)], {'num_paths': 3}))
+        out.append(('tpt.top_path', 'tiny-fluxes-%g' % t, [[s_], [t_], N(Fm)], {}))
+        # distances: coordinates whose squares underflow
+        X = rng.integers(-3, 4, size=(int(rng.integers(2, 12)), 3)) * t
+        out.append(('libdist.euclidean', 'tiny-coordinates-%g' % t, [N(X), N(X[0])], {}))
+        out.append(('cluster.kcenters', 'tiny-coordinates-%g' % t, [N(X), 'euclidean'], {'n_clusters': 2}))
+        out.append(('cluster.find_cluster_centers', 'tiny-distances-%g' % t,
+                    [N(rng.integers(0, 2, size=8)), N(rng.integers(0, 4, size=8) * t)], {}))
+        out.append(('mutual_info.mi_to_nmi', 'tiny-mi-%g' % t, [N(_sym_mi(rng, 3) * t)], {}))
+        out.append(('mutual_info.channel_capacity_normalization', 'tiny-mi-%g' % t, [N(rng.random((2, 3)) * t), 2, 3], {}))
+    for k, h in enumerate(HUGE):
+        # energies far above kT: exp underflows for most states
+        out.append(('entropy.energy_to_probability', 'energies-%g-kT' % h, [N(np.array([0.0, 1.0, h, 400.0, 800.0]))],
+                    {'kT': 1.0}))
+        n = int(rng.integers(2, 5))
+        C = _counts(rng, n).astype(float) + 1.0
+        C[0, 0] = h
+        C[1, 0] = h
+        for b in ('normalize', 'transpose', 'mle'):
+            out.append(('builders.' + b, 'huge-counts-%g' % h, [N(C)], {}))
+        out.append(('entropy.shannon_entropy', 'huge-counts-%g' % h, [N(np.array([h, h, 1.0, 0.0]))], {}))
+        out.append(('entropy.kl_divergence', 'huge-unnormalised-%g' % h, [N(np.array([h, 1.0, 0.0])), N(np.array([1.0, h, 1.0]))], {}))
+        jc = rng.integers(0, 5, size=(2, 2, 2, 2)).astype(float)
+        jc[0, 0] *= h
+        out.append(('mutual_info.mutual_information', 'huge-counts-%g' % h, [N(jc)], {}))
+        T = int(rng.integers(3, 12))
+        feats = rng.integers(0, 2, size=(T, 2))
+        w = rng.random(T)
+        w[0] = h
+        out.append(('mutual_info.weighted_mi', 'huge-unnormalised-weight-%g' % h, [N(feats), N(w)], {}))
+        X = rng.integers(-3, 4, size=(6, 3)) * h
+        for m in ('euclidean', 'manhattan'):
+            out.append(('libdist.' + m, 'huge-coordinates-%g' % h, [N(X), N(X[1])], {}))
+        out.append(('cluster.kmedoids', 'huge-coordinates-%g' % h, [N(X), 'euclidean'],
+                    {'n_clusters': 2, 'n_iters': 1, 'random_state': 1}))
+        out.append(('tpt.paths', 'huge-fluxes-%g' % h, [[0], [2], N(np.array([[0, h, 1.0], [0, 0, h], [0, 0, 0]]))], {}))
+    return out
+
+
 # --------------------------------------------------------------------------------------
 # blind-spot families: presentation of every argument (class 2), object reuse and call
 # history (class 5), arguments by name (class 6)
@@ -1973,6 +2084,38 @@ def _set(e, path, v):
     return e
 
 
+TINY = [1e-170, 1e-200, 1e-300, 5e-324]       # squares / products underflow to exactly 0
+HUGE = [1e150, 1e200, 1e300]                   # squares / products overflow to inf
+_SCALE_VARIANTS = ('tiny-entries', 'huge-entries', 'all-scaled-1e-200', 'all-scaled-1e+200', 'lone-tiny-rest-zero')
+
+
+def _scale_presentations(enc):
+    """the same float array with some non-zero entries at an extreme scale (probabilities, weights and
+    counts whose squares or products underflow to 0 or overflow to inf), or scaled as a whole"""
+    if np.dtype(enc['dt']).kind != 'f' or not enc['v']:
+        return []
+    v = list(enc['v'])
+    nz = [i for i, x in enumerate(v) if x != 0 and x == x]
+    if not nz:
+        return []
+    pos = sorted({nz[0], nz[len(nz) // 2], nz[-1]})
+    h = sum(pos) + len(v)
+    outs = []
+    for name, vals in (('tiny-entries', TINY), ('huge-entries', HUGE)):
+        w = list(v)
+        for j, i in enumerate(pos):
+            w[i] = vals[(h + j) % len(vals)]
+        outs.append((name, dict(enc, v=w)))
+    outs.append(('all-scaled-1e-200', dict(enc, v=[x * 1e-200 for x in v])))
+    outs.append(('all-scaled-1e+200', dict(enc, v=[x * 1e200 for x in v])))
+    w = [0.0] * len(v)
+    w[nz[0]] = TINY[h % len(TINY)]
+    if len(nz) > 1:
+        w[nz[-1]] = 1.0
+    outs.append(('lone-tiny-rest-zero', dict(enc, v=w)))
+    return outs
+
+
 def _presentations(enc, routine):
     """other ways of handing over the same values"""
     if isinstance(enc, list):                            # plain Python list of ints (indices, lengths, ...)
@@ -2007,11 +2150,13 @@ def _presentations(enc, routine):
         if nd == 2 and shape[0] == shape[1] and routine in SPARSE_OK:
             for fmt in ('csr_matrix', 'csc_matrix', 'coo_matrix', 'lil_matrix', 'csr_array'):
                 outs.append((fmt, dict(enc, t='sp', fmt=fmt)))
+        outs += _scale_presentations(enc)
     elif t == 'sp':
         for fmt in ('csr_matrix', 'csc_matrix', 'coo_matrix', 'lil_matrix', 'dok_matrix', 'csc_array'):
             if fmt != enc['fmt']:
                 outs.append((fmt, dict(enc, fmt=fmt)))
         outs.append(('dense', {k: v for k, v in dict(enc, t='nd').items() if k != 'fmt'}))
+        outs += _scale_presentations(enc)
     elif t == 'ra':
         for cand in ('int32', 'float64', 'int8'):
             if cand != enc['dt'] and enc['dt'] != 'bool':
@@ -2038,6 +2183,10 @@ def argument_variants(rng, routine, args, kwargs, k, dtype_only=False):
     for pi in rng.permutation(len(paths))[:(1 if dtype_only else k)]:
         pth = paths[int(pi)]
         pres = _presentations(_get(both, pth), routine)
+        scs = [c for c in pres if c[0] in _SCALE_VARIANTS]
+        pres = [c for c in pres if c[0] not in _SCALE_VARIANTS]
+        if scs:                                          # one extreme-scale presentation of every float array
+            chosen.append((pth,) + scs[int(rng.integers(0, len(scs)))])
         dts = [c for c in pres if c[0] in _DTYPE_VARIANTS or c[0].startswith('list-as-int')]
         lays = [c for c in pres if c[0] not in _DTYPE_VARIANTS]
         if dts:
@@ -2496,7 +2645,10 @@ def run(ctx):
                 for vname, a2, k2 in argument_variants(rng, routine, args, kwargs, 1, dtype_only=True):
                     check_argset(ctx, routine, 'variant:%s:%s' % (label, vname), a2, k2, reps=reps,
                                  perturbations=[{'kind': 'repeat'}] +
-                                 ([{'kind': 'alloc', 'fill': 'nan'}] if poison_allocator() else []))
+                                 ([{'kind': 'alloc', 'fill': f} for f in
+                                   (('nan', 'inf', 'aa') if vname.split(':')[-1] in _SCALE_VARIANTS else ('nan',))]
+                                  if poison_allocator() else []) +
+                                 ([{'kind': 'heap', 'fill': 'nan'}] if vname.split(':')[-1] in _SCALE_VARIANTS else []))
                     ctx.tag('variant=' + vname.split(':')[-1])
             for label, args, kwargs in picks:
                 if len(json.dumps(args)) > 200000:
@@ -2514,6 +2666,12 @@ def run(ctx):
             for label, args, kwargs in [sets[int(i)] for i in rng.permutation(len(sets))[:nhist]]:
                 if len(json.dumps(args)) < 200000 and routine not in WORKERS:
                     check_history(ctx, routine, label, args, kwargs)
+    # probabilities / weights / counts whose products underflow or overflow
+    for routine, label, args, kwargs in extreme_scale_sets(rng, ctx.thorough):
+        b = check_argset(ctx, routine, 'corner:extreme-scale:' + label, args, kwargs, reps=reps,
+                         perturbations=[p for p in perturbation_list(ctx.thorough, routine)
+                                        if ctx.thorough or p['kind'] != 'threads'])
+        ctx.tag('family=extreme-scale')
     # compiled kernels at extreme shapes under every team size
     for rd in range(ctx.n(1, 3)):
         for routine, label, args, kwargs in kernel_extremes(rng, ctx.thorough):
